@@ -768,6 +768,8 @@ class Interp:
             return sorted(v, key=repr, reverse=self.set_reverse)
         if isinstance(v, (list, tuple, str, dict, range)):
             return list(v)
+        if v is None or isinstance(v, (bool, int, float)):
+            raise PyRaise(ExcInstance("TypeError", ["%r object is not iterable" % type(v).__name__], ("Exception",)), node)
         raise Undecided("iteration over %s (line %s)" % (type(v).__name__, getattr(node, "lineno", "?")))
 
     def length(self, v, node=None):
